@@ -616,6 +616,16 @@ class Class(metaclass=mixin.MixinMeta):  # pylint: disable=undefined-variable
           baselist.append(base)
       newbases.append(baselist)
 
+    # Like CPython, reject a class that lists the same base more than once.
+    # (MROMerge would otherwise silently de-duplicate the bases.) Repeated
+    # Generic[...] bases get their own, more specific error elsewhere.
+    direct_bases = newbases[-1]
+    for i, base in enumerate(direct_bases):
+      if getattr(base, "SINGLETON", False) or base.full_name == "typing.Generic":
+        continue
+      if any(base is other for other in direct_bases[:i]):
+        raise mro.MROError(newbases)
+
     # calc MRO and replace them with original base classes
     return tuple(base2cls[base] for base in mro.MROMerge(newbases))
 
